@@ -5,8 +5,6 @@
 // https://opensource.org/licenses/MIT.
 
 use std::error::Error;
-#[cfg(test)]
-use std::fs;
 use std::fs::Metadata;
 use std::io::{stderr, Write};
 use std::time::{Duration, SystemTime, UNIX_EPOCH};
